@@ -28,7 +28,7 @@ LEVEL_TEXT = ("Theorems (Coq, over the reals, for an arbitrary objective functio
               "NO ANSWER WITHOUT A RIDDER PASS, ON EVERY INSTANCE (C02_first_pass_always_runs, C02_pass_shape_any_instance; no law of arithmetic, so doubles included): a request with opposite signs at the ends and no NaN "
               "there is never answered from the ends alone, whatever the accuracy (the width of the bracket and beyond included): the trace begins xl, xr, midpoint, Ridder's point of the original bracket, and when nothing "
               "else is evaluated the answer is that Ridder point - which over the reals is the root of a linear function (C02_linear_exact, every accuracy). "
-              "Not theorems: statements about IEEE rounding (the midpoint of a pass being inside the bracket on doubles is tested, not proved; the cost bound on doubles is tested with 0.9 acc for acc, "
+              "TERMINATION AND SHAPE ON EVERY INSTANCE (C02_trace_shape_any_instance, C02_evaluation_budget_any_instance; induction over the iteration budget, no law of arithmetic or order, so doubles with rounding, infinities and NaNs included): every run evaluates the two ends and then nothing (exit / zero end), or two abscissae per pass for k passes, 1 <= k <= 2200, ending with an exit or returning the abscissa of the LAST evaluation, or 2*2200+1 more with the answer evaluated twice at the end (iteration limit); never more than 4403 evaluations, never an OOB/Fuel outcome, and every number returned is an abscissa at which f was evaluated (S4 predicate trace-shape evaluates this on the implementation). ALL PASSES INSIDE THE BRACKET ON EVERY ORDERED INSTANCE, PARTIAL (C02_evaluations_inside_ordered_partial; order laws plus the single premise mid_between: 0.5x+0.5y lies between x and y — proved for the reals, C02_midpoint_between_reals, NOT proved for doubles): every evaluation of every pass and the returned number lie in [xl,xr], whatever rounding does to Ridder's formula. STOPPING TEST / ACCURACY ON EVERY INSTANCE (C02_stopping_test_any_instance, no law of arithmetic or order, doubles included; C02_stopping_test_reals): a number returned through f4 == 0 has computed value == 0; a number returned through the width test is an end of a pair (u,v) of abscissae evaluated in this call whose values pass the code's sign test (both non-zero, different sign) and whose computed distance fabs(v-u) is < xAccuracy — the accuracy clause for doubles up to the one rounding of v-u and the trusted evaluation of f (S4 predicate stop-pair evaluates it on the implementation). ORDER OF THE ENDS ON EVERY ORDERED INSTANCE, PARTIAL (C02_order_irrelevant_ordered_partial): same outcome and trace for ends the order tells apart; +0/-0 ends (equal, not identical) are not covered. HISTORIES OVER THE REALS (C02_history_all_answers_correct): every answer of every history satisfies C02_outcomes and the location clause for the request at its position. MONOTONE FUNCTIONS (C02_monotone_every_root_close, reals, no continuity): for a strictly increasing or decreasing f EVERY zero of f is the answer or within acc of it (2^-2200 of the width after an iteration-limit return), i.e. the answer is within acc of THE root. HISTORIES, CONVERSE (C02_history_entries, every instance, induction over the history): every entry of the answers is the answer to the request at the same position served alone, all earlier ones returned numbers, and there are no more answers than requests. Not theorems: statements about IEEE rounding (the midpoint of a pass being inside the bracket on doubles is tested, not proved — it is now the ONLY arithmetic premise of the all-passes-inside statement; the cost bound on doubles is tested with 0.9 acc for acc, "
               "for accuracies of at least 40 spacings of doubles; the two scaling relations are tested on doubles with powers of two, where they are exact, on the values actually met; the stopping test is "
               "aimed at from both sides — accuracy on a ladder of ulps and relative distances around the width of a pre-computed intermediate bracket, step-like atan/tanh/erf transitions down to "
               "1e-20 spacings wide placed at the far end of that bracket, all scales; "
@@ -1126,6 +1126,26 @@ def check_returned(op, req, calls):
         bad = [u for u in tr if not (lo <= u <= hi)]
         if bad: out.append((op + ":location" + cls_r, f"f evaluated at {bad[0]!r} outside the bracket [{lo!r},{hi!r}]"))
         if len(tr) >= 2 and (tr[0] != lo or tr[1] != hi): out.append((op + ":ends-first", "the first two evaluations are not the bracket ends"))
+        # the shape of a run (C02_trace_shape_any_instance): ends, then two evaluations per pass, the number returned being the abscissa of the
+        # last evaluation; an iteration-limit return has one more evaluation, at the same abscissa, and exactly 2 + 2*2200 + 1 in all
+        if w != "1":
+            if n < 4 or n % 2 or n > 2 + 2 * 2200 or hx(tr[-1]) != hx(x):
+                out.append((op + ":trace-shape", f"{n} evaluations, the last at {tr[-1]!r}, returned {x!r}: not ends + two per pass with the answer evaluated last"))
+        elif n != 2 + 2 * 2200 + 1 or hx(tr[-1]) != hx(x) or hx(tr[-2]) != hx(x):
+            out.append((op + ":trace-shape", f"iteration-limit return after {n} evaluations, the last two at {tr[-2:]!r}, returned {x!r}"))
+        # the stopping test (C02_stopping_test_any_instance): a number returned from the loop is a point where f == 0, or an end of a pair of
+        # evaluated abscissae with non-zero function values of different sign whose computed distance is < acc (values recomputed here; skipped
+        # when a recomputed value is NaN, where Sign(x,y) != x means something else)
+        if w != "1" and n >= 4 and acc == acc:
+            fx_ = f(x)
+            if fx_ == fx_ and fx_ != 0.0:
+                ok = False
+                for u in tr:
+                    if abs(u - x) < acc:
+                        fu = f(u)
+                        if fu != fu: ok = True; break
+                        if fu != 0.0 and sgn(fu) != sgn(fx_): ok = True; break
+                if not ok: out.append((op + ":stop-pair" + cls_r, f"returned {x!r} with f = {fx_!r} != 0 after {n} evaluations, but no evaluated abscissa within acc = {acc!r} of it has a function value of the other sign"))
         if not (lo <= x <= hi): out.append((op + ":inside" + cls_r, f"returned {x!r} outside the bracket [{lo!r},{hi!r}]")); continue
         pts = [max(lo, x - acc), x, min(hi, x + acc)] + [u for u in tr if abs(u - x) <= acc and lo <= u <= hi]
         vals = [f(u) for u in pts]
